@@ -268,6 +268,8 @@ def run(ck: Checker) -> None:
     ck.guard("R-XP-SHARED", lambda: r_legacy_step(ck))
     from .c07 import r_xp_elements
     ck.guard("R-XP-ELEMENTS", lambda: r_xp_elements(ck, LXP, min_count=1))
+    from .c17 import r_reusable
+    ck.guard("R-XP-ELEMENTS", lambda: r_reusable(ck, LXP))
     ck.guard("R-LEG-XPATH-SPELL", lambda: r_xpath_spell(ck))
     ck.guard("R-PRESENCE", lambda: r_legacy_presence(ck))
     ck.guard("R-XP-ANYWHERE", lambda: r_legacy_match_head(ck))
